@@ -142,6 +142,8 @@ pub const STRESS: &[&str] = &[
     "#define\n#ifdef\n#ifndef /* c */ $1\n#else\n#endif\n#endif\n#ifdef 99999999999999999999999\nclass A;\n#define ..\n",
     "class A;\n#ifdef X\nclass B : A;\n#else\nclass C : A {\n#endif\n}\ndef d : C;\n#ifndef X\n",
     "#ifdef UNDEF\n#ifdef INNER\nclass X;\n#else\nclass Y;\n#endif\nclass Z;\n#ifndef OTHER\ndef q : X;\n#endif\n#endif\nclass W;\n#ifdef UNDEF2\n#ifndef I2\n",
+    // names pasted from literals only, and identifiers that spell the pasted result
+    "class C;\ndef A#\"_x\" : C;\ndef B { C c = A_x; C d = A; }\nforeach i = [1] in def P#\"_q\"#i : C;\ndefvar v = P_q1;\nmulticlass MM { def _m : C; }\ndefm M#\"_y\" : MM;\ndefvar w = M_y_m;\ndef A_x2 : C;\ndefvar u = [A_x, A_x2, M_y];\n",
     // cyclic class hierarchies met by every kind of type-compatibility question (initialiser, let, list element, template argument)
     "class B;\nclass A : A;\ndef a : A;\nclass C { B b = a; list<B> l = [a]; }\ndef c : C { let b = a; }\nclass D<B p>;\ndef e : D<a>;\ndefvar w = !cast<B>(a);\n",
     "class U;\nclass A : B;\nclass B : C;\nclass C : A;\ndef x : B;\nclass H { U u = x; A a = x; C c = x; }\ndef y : H { let u = x; }\nclass D<U q = x>;\nforeach i = [x] in def z # i : D<x>;\n",
